@@ -106,7 +106,7 @@ func c20Child(args []string) {
 			Compresses: []config.CompressConfig{{Name: "cmp", Levels: map[string]uint{"gzip": uint(1 + variant*5), "br": uint(1 + variant*4)}}},
 			// (the size of a surviving cache is a restart-only setting: changing it in a reload has no effect,
 			// but it is a legal configuration change like any other)
-			Caches:     []config.CacheConfig{{Name: "c20a", Size: 64, HitForPass: "1s", Store: "mem://c20/a"}, {Name: "c20b", Size: 400 + variant*900, HitForPass: "1s"}},
+			Caches: []config.CacheConfig{{Name: "c20a", Size: 64, HitForPass: "1s", Store: "mem://c20/a"}, {Name: "c20b", Size: 400 + variant*900, HitForPass: "1s"}},
 			Upstreams: []config.UpstreamConfig{{Name: "u0", Servers: []config.UpstreamServerConfig{{Addr: farm.Origins[0].URL()}, {Addr: farm.Origins[1].URL()}}},
 				{Name: "u1", Servers: []config.UpstreamServerConfig{{Addr: farm.Origins[variant%2].URL()}}}},
 			Locations: []config.LocationConfig{{Name: "l0", Upstream: "u0", Prefixes: []string{"/c20/"}}, {Name: "l1", Upstream: "u1", Prefixes: []string{"/c20/u/"}}},
